@@ -998,6 +998,21 @@ where
                             }
                         }
                     }
+                    // Shutdown was consumed by the drain above: the final persist of the Shutdown arm
+                    // will not run. Entries appended while persist_entries was in progress are still
+                    // memory-only; write them before the last fsync or a graceful close() loses
+                    // entries that were already acknowledged.
+                    if seen_shutdown {
+                        let current_max = this.max_index.load(Ordering::Acquire);
+                        let written = pending_max.max(this.durable_index.load(Ordering::Acquire));
+                        if current_max > written
+                            && let Ok(entries) = this.get_entries_range(written + 1..=current_max)
+                            && !entries.is_empty()
+                            && this.log_store.persist_entries(entries).await.is_ok()
+                        {
+                            pending_max = current_max;
+                        }
+                    }
                     let fsync_ok = if pending_max > 0 {
                         match this.advance_durable_after_write(pending_max).await {
                             Ok(()) => { pending_max = 0; true }
@@ -1081,6 +1096,21 @@ where
                             }
                             if fatal_exit {
                                 break; // disk state corrupted — exit without fsync
+                            }
+                            // Shutdown was consumed by the drain above: the final persist of the Shutdown arm
+                            // will not run. Entries appended while persist_entries was in progress are still
+                            // memory-only; write them before the last fsync or a graceful close() loses
+                            // entries that were already acknowledged.
+                            if seen_shutdown {
+                                let current_max = this.max_index.load(Ordering::Acquire);
+                                let written = pending_max.max(this.durable_index.load(Ordering::Acquire));
+                                if current_max > written
+                                    && let Ok(entries) = this.get_entries_range(written + 1..=current_max)
+                                    && !entries.is_empty()
+                                    && this.log_store.persist_entries(entries).await.is_ok()
+                                {
+                                    pending_max = current_max;
+                                }
                             }
                             let fsync_result = if pending_max > 0 {
                                 match this.advance_durable_after_write(pending_max).await {
